@@ -25,13 +25,9 @@ def boolean_tests(case):
         "libccd": gjk.gjk_intersection_libccd,
         "mpr": mpr.mpr_intersection,
         "nesterov": gjk.gjk_nesterov_accelerated_intersection,
-        "nesterov-acc": lambda a, b: gjk.gjk_nesterov_accelerated(
-            a, b, use_nesterov_acceleration=True)[0],
     }
     if is_primitive_pair(case):
         t["nesterov-prim"] = gjk.gjk_nesterov_accelerated_primitives_intersection
-        t["nesterov-prim-acc"] = lambda a, b: gjk.gjk_nesterov_accelerated_primitives(
-            a, b, use_nesterov_acceleration=True)[0]
     return t
 
 
